@@ -580,6 +580,12 @@ def generate(rng, index, tier):
         teardown = {'src': src, 'kind': kind, 'after': rng.randint(0, counts[src]), 'cut': rng.randint(1, 4000),
                     'lag': rng.choice([0.0, 0.05, 1.0]), 'cls': rng.choice(POOL[FAMILY[src]]),
                     'var': rng.randint(0, 200), 'key': '%08x' % rng.getrandbits(32)}
+    slowfirst = []
+    if rng.random() < 0.2:
+        for _ in range(rng.randint(1, 2)):
+            slowfirst.append({'port': rng.choice(('clear', 'obf')), 'cut': rng.choice([0, 1, 3, 4, 5, 9, 20]),
+                              'stall': rng.choice([0.5, 3.0, 4.9, 5.1, 8.0, 20.0, 45.0]),
+                              'at': round(rng.uniform(0.0, 2.0), 2)})
     badfirst = []
     if rng.random() < 0.25:
         for _ in range(rng.randint(1, 2)):
@@ -587,7 +593,7 @@ def generate(rng, index, tier):
                              'at': round(rng.choice([0.0, 0.0, 0.5, 2.0]) + rng.random() * 0.1, 4),
                              'rs': rng.getrandbits(16), 'key': '%08x' % rng.getrandbits(32)})
     return {'seed': rng.getrandbits(32), 'net': net, 'regimes': regimes, 'dist_obf': rng.random() < 0.5,
-            'frames': frames, 'teardown': teardown, 'badfirst': badfirst}
+            'frames': frames, 'teardown': teardown, 'badfirst': badfirst, 'slowfirst': slowfirst}
 
 
 _BASE_NET = {'base_ms': 5, 'jitter_ms': 0, 'segmentation': 'whole', 'coalesce': True, 'byte_mode_max': 8192, 'links': {}}
@@ -680,6 +686,12 @@ def corpus(tier):
             lst = [{'src': l, 'kind': 'valid', 'cls': _A[FAMILY[l]][0], 'var': 1, 'gap': 0.3, 'key': key}
                    for l in LINKS for _ in range(2)]
             out.append(_plan(lst, badfirst=[{'port': port, 'what': what, 'at': 0.2, 'rs': 5, 'key': key}]))
+    # 8. a well-formed first frame in two parts with a pause between them
+    for port in ('clear', 'obf'):
+        for cut in (0, 3, 9):
+            for stall in (1.0, 6.0, 30.0):
+                lst = [{'src': l, 'kind': 'valid', 'cls': _A[FAMILY[l]][0], 'var': 1, 'gap': 0.3, 'key': key} for l in LINKS]
+                out.append(dict(_plan(lst), slowfirst=[{'port': port, 'cut': cut, 'stall': stall, 'at': 0.2}]))
     return out
 
 
@@ -695,7 +707,7 @@ def enumerated_axes(tier):
     }
 
 
-SHRINK_LISTS = ('frames', 'badfirst')
+SHRINK_LISTS = ('frames', 'badfirst', 'slowfirst')
 
 
 def simplify(plan):
@@ -816,6 +828,9 @@ def _run(world: World, plan):
     peers = {name: world.add_peer(name) for name in ('pclear', 'pobf', 'dist')}
     badfirst = list(plan.get('badfirst') or [])
     bf_peers = [world.add_peer(f"bf{i}") for i in range(len(badfirst))]
+    slowfirst = list(plan.get('slowfirst') or [])
+    sf_peers = [world.add_peer(f"sf{i}") for i in range(len(slowfirst))]
+    sf = []
     late_peers = {port: world.add_peer(f"late{port}") for port in ('clear', 'obf')} if badfirst else {}
 
     regimes = plan.get('regimes') or {}
@@ -1023,6 +1038,29 @@ def _run(world: World, plan):
         await drain(link)
         ent['peer_saw_end'] = loop.time()
 
+    async def slowfirst_script(i, rec):
+        # a well-formed first frame that arrives in two parts with a pause between them (shorter than the read
+        # timeout), another frame right behind it: both are delivered, in order, once
+        peer = sf_peers[i]
+        await asyncio.sleep(float(rec.get('at') or 0.0))
+        obf = rec.get('port') == 'obf'
+        try:
+            link = await peer.connect(alice.host.ip, 60001 if obf else 60000, obfuscated=obf)
+        except OSError:
+            return
+        ent = {'rec': rec, 'i': i, 'link': link, 'name': peer.name, 'connected_at': loop.time()}
+        sf.append(ent)
+        data = wire(M.PeerInit.Request(peer.name, 'P', 1).serialize(), obf, '1a2b3c4d')
+        cut = max(0, min(len(data) - 1, int(rec.get('cut', 1))))
+        fired['first_frame_in_two_parts'] += 1
+        if cut:
+            link.send_raw(data[:cut])
+        await asyncio.sleep(float(rec.get('stall', 1.0)))
+        link.send_raw(data[cut:])
+        link.send_raw(wire(M.PeerUploadFailed.Request(f'c02-slow-{i}').serialize(), obf, '4d3c2b1a'))
+        ent['sent_at'] = loop.time()
+        peer.spawn(drain(link))
+
     late = {}
 
     async def late_script(port):
@@ -1082,7 +1120,11 @@ def _run(world: World, plan):
         jobs = [asyncio.ensure_future(source(lk)) for lk in L.values() if not lk.get('setup_failed')]
         for i, rec in enumerate(badfirst):
             bf_peers[i].spawn(badfirst_script(i, rec))
+        sf_tasks = [sf_peers[i].spawn(slowfirst_script(i, rec)) for i, rec in enumerate(slowfirst)]
         await asyncio.gather(*jobs)
+        if sf_tasks:
+            await asyncio.gather(*sf_tasks, return_exceptions=True)
+            await asyncio.sleep(PROBE_BOUND)
         # let the last frames arrive (slowest regime: 60 ms + 100 ms jitter per segment is monotone per pipe)
         for _ in range(60):
             await asyncio.sleep(0.25)
@@ -1358,6 +1400,21 @@ def _run(world: World, plan):
                               connected=bool(ent.get('connected')), initialised=uname in inited, delivered=len(got))
             else:
                 world.probe('port_serves_after_bad_first_frame')
+
+    # first frame in two parts -----------------------------------------------------------------------
+    for ent in sf:
+        want = M.PeerUploadFailed.Request(f"c02-slow-{ent['i']}")
+        got = [m for (_t, _it, c, m) in ev_log if getattr(c, 'username', None) == ent['name']]
+        if ent.get('sent_at') is None:
+            continue
+        if ent['name'] in inited and got == [want]:
+            world.probe('first_frame_in_two_parts_delivered')
+            continue
+        own = inited.get(ent['name'])
+        closed = own is not None and closed_at(own) is not None
+        world.violate('C02.reader_dead' if not closed else 'C02.delivery', link='accepted', what='first frame in two parts',
+                      stall=ent['rec'].get('stall'), initialised=ent['name'] in inited, delivered=len(got),
+                      **({'state': 'CLOSED'} if closed else {}))
 
     # task deaths ----------------------------------------------------------------------------------
     for rec in world.loop.exc_contexts:
